@@ -202,15 +202,13 @@ func (w *world) stabilise() (string, bool) {
 	var cv, ch uint64
 	for _, c := range winner.commits {
 		if c.height == H {
-			ch = c.block.Id
+			cv, ch = c.view, c.block.Id
 		}
 	}
-	found := false
-	for i := histMark; i < len(w.history); i++ {
-		m := w.history[i]
-		if (m.Kind == "PP" || m.Kind == "NV") && m.height() == H && m.Ref.Hash == ch && !w.byz[m.sender()] {
-			cv, found = m.view(), true
-			break
+	found := true
+	for _, m := range w.history[:histMark] {
+		if (m.Kind == "PP" || m.Kind == "NV") && m.height() == H && m.view() == cv {
+			found = false // the view's proposal predates stabilisation: some of its traffic may have been lost
 		}
 	}
 	if found {
